@@ -30,10 +30,25 @@ def install():
     return pkg
 
 
+_ORIG: dict = {}
+
+
 def load(name):
     """load('core') -> module genjax.core from the working tree."""
     install()
-    return importlib.import_module("genjax." + name)
+    first = ("genjax." + name) not in sys.modules
+    mod = importlib.import_module("genjax." + name)
+    if first or name not in _ORIG:
+        # the module-level objects as CPython compiled them, before any contract module patches dependencies in
+        # the module's namespace: contracts always target THESE (a name another contract replaced by a stub, such as
+        # pjax.stage, still resolves to the real function)
+        _ORIG.setdefault(name, {k: v for k, v in vars(mod).items() if inspect.isfunction(v) or inspect.isclass(v)})
+    return mod
+
+
+def original(modname, attr):
+    load(modname)
+    return _ORIG[modname][attr]
 
 
 def resolve(qual):
@@ -43,8 +58,15 @@ def resolve(qual):
     mod = load(modname[len("genjax."):])
     obj = mod
     owner = mod
+    first = True
     for part in path.split("."):
         owner = obj
+        if first:
+            first = False
+            orig = _ORIG.get(modname[len("genjax."):], {}).get(part)
+            if orig is not None and getattr(orig, "__module__", None) == modname:
+                obj = orig
+                continue
         if not hasattr(obj, part):
             raise MissingTarget(qual)
         obj = inspect.getattr_static(obj, part) if inspect.isclass(obj) else getattr(obj, part)
